@@ -214,7 +214,8 @@ fn plan_renames_with_conflicts_and_params(
         if file_type.is_dir() && !options.rename_dirs {
             continue;
         }
-        if file_type.is_file() && !options.rename_files {
+        // Everything that is not a directory (regular files, symlinks) is planned as a file rename
+        if !file_type.is_dir() && !options.rename_files {
             continue;
         }
 
